@@ -4,7 +4,7 @@ import json, sys
 CHECKS = {
  # id: (technique, level text, level note, design_ref)
  "C01": ("runtime reference-model monitor: generated canonical values through the real Encode/Decode, structural-equality oracle with independently recomputed length/checksum",
-         "Exploration: every one of the 170 codecs is driven with PRNG-determined canonical values (boundary-biased numbers, float bit patterns, hostile text, lists, every registered discriminator key) and the decoded message is compared bit-for-bit with the original; texts that collide under CRC-32, FNV-1a-32 and FNV-1a-64 are round-tripped one after the other in one process. Holds on the executions observed; values not generated are not covered.",
+         "Exploration: every one of the 170 codecs is driven with PRNG-determined canonical values (boundary-biased numbers, float bit patterns, hostile text, lists, every registered discriminator key, lists and texts at exactly their prefix maxima) and the decoded message is compared bit-for-bit with the original; texts that collide under CRC-32, FNV-1a-32 and FNV-1a-64 are round-tripped one after the other in one process. Holds on the executions observed; values not generated are not covered.",
          "Trusts Go reflection and the harness's own equality/clone code; the pinned schema only steers generation.", "§3 C01"),
  "C02": ("runtime reference-model monitor: independent interpreter of the pinned wire schema compared byte-for-byte (encode) and value-for-value (decode) with the real codecs on generated canonical, arbitrary and wire-level inputs",
          "Exploration: per message type ('program') the library and an independent schema interpreter are run side by side on PRNG-determined values and images; any byte, accept/reject, consumed-length or value disagreement is a violation. Catches two-sided layout changes that every round-trip test is blind to. Holds on the executions observed.",
@@ -40,7 +40,7 @@ CHECKS = {
          "Exploration with exhaustively enumerated sub-spaces: all 226 registered keys (type identity + round trip + encode-fill bytes), the whole u16 key space, all u32 keys < 2^20 (thorough 2^24) plus neighbourhoods, and for string tables all strings of length <= 3 over a small alphabet (thorough: all byte strings <= 3). Unregistered keys are presented alone, as the last bytes of the input, followed by a valid frame, and into used receivers. The claim stays exploration because the u32 spaces are not swept completely.",
          "The key→type tables are frozen data of the pinned commit.", "§3 C12"),
  "C13": ("runtime reference-model monitor for fixed-width text primitives: exhaustive small scope plus random, against a 10-line pad/cut/strip model",
-         "Exploration with an exhaustively enumerated small scope (N<=3 × 256 pad bytes × both sides × all texts over a 5-symbol alphabet) and random widths up to 65536; default wrappers and list variants per element; every fixed-text field of every message type; hash-colliding texts read one after the other.",
+         "Exploration with an exhaustively enumerated small scope (N<=3 × 256 pad bytes × both sides × all texts over a 5-symbol alphabet) and random widths up to 65536; default wrappers and list variants per element; every fixed-text field of every message type (value, padding and emitted width); hash-colliding texts read one after the other.",
          "Pad characters above 0xFF are outside 'pad byte'.", "§3 C13"),
  "C14": ("runtime reference-model monitor for the four checksum services: exhaustive short strings, random and multi-MiB inputs against own implementations; buffer non-consumption and repeatability observed",
          "Exploration with an exhaustively enumerated sub-space (all strings <= 2 bytes quick, <= 3 bytes thorough) plus random strings to 64 KiB, the specific lengths at which 32-bit accumulators overflow, sentinel bytes around the data, in-place patch sequences on one large buffer, and a re-run after the registry was emptied.",
@@ -55,7 +55,7 @@ CHECKS = {
          "Exploration: every type × zero value, constructor result, arbitrary field contents, every registered key with nil body, unregistered keys, each nested pointer part nil, every text length 0..2200 and list count 0..1100, frames whose body must refuse (thorough: 70 000-element lists), into nine kinds of destination buffer; checksummed frames also with their service unregistered. A panic or a dead child refutes.",
          "Values with nil list elements or typed-nil bodies are excluded as the property says.", "§3 C17"),
  "C18": ("runtime monitor at the prefix limits: every prefixed writer and every prefixed field of every message at max and max+1 (u32 text via an untouched 4 GiB mapping and 2^32 zero-sized list entries, in a child)",
-         "Exploration at enumerated boundary points: all prefixed primitives × u8/u16 and defined types over them × {max-1,max,max+1,2max+1}; every prefixed field of every message type at max (round trip) and max+1 (must error), also inside frames and inside list elements / nested parts at every nesting depth (the refusal must propagate to the outermost Encode); 2^32-byte texts and 2^32 zero-sized entries behind u32 prefixes.",
+         "Exploration at enumerated boundary points: all prefixed primitives × u8/u16 and defined types over them × {max-1,max,max+1,2max+1}; every prefixed field of every message type at max (round trip) and max+1 (must error), also along every path from an enclosing message down to such a field - list element, nested part, frame body, application extension, extension inside a body inside a frame - (the refusal must propagate to the outermost Encode); 2^32-byte texts and 2^32 zero-sized entries behind u32 prefixes.",
          "Field enumeration comes from the pinned schema.", "§3 C18"),
  "C19": ("linearizability checking (porcupine v1.3.0) of recorded concurrent histories of Registry/Get/Remove/Clear and of real frame encodes whose trailer reveals the registration they looked up, against a sequential map model; plus the Go race detector on the same workload",
          "Exploration over schedules: thousands of short, genuinely overlapping histories of Registry/Get/Remove/Clear with unique-id services are recorded at the client boundary and checked; the same workload runs under -race; drain histories (70 names removed one by one while others register); ten fresh processes start with Clear/Remove/Registry/Get on the built-in names as their very first registry calls, five of them with frame encodes/decodes in between while the name holds nothing, a built-in, or a service of another result type (library work never changes the registry). Holds on the histories and accesses observed.",
